@@ -202,7 +202,7 @@ def message_ok(got, rec, path, argv, info):
     pieces = []
     for p in rec["msg"]:
         if p == "DEFAULTPFX":
-            pieces.append(b"[uid:%d sid:%d tty:(none) cwd:%s filename:%s]: " % (info["uid"], info["sid"], info["cwd"], path[:dsmax]))
+            pieces.append(b"[uid:%d sid:%d tty:%s cwd:%s filename:%s]: " % (info["uid"], info["sid"], info.get("tty", b"(none)"), info["cwd"], path[:dsmax]))
         else:
             pieces.append(piece_bytes(p, path, argv or [], dsmax))
     full = b"".join(pieces)
@@ -309,6 +309,8 @@ def build_script(ctx, items, warm=True, snap=True):
             s.add("forkpid", int(call["pid"][1:]))        # SnoopyCallMC!PidClasses: "p<number>"
         else:
             s.add("fork")
+        if sum(label.encode()) % 3 == 0 and not real:
+            s.add("stdin", "closed").add("emit", "closed0:" + label)   # a third of the callers have no descriptor 0 (daemons): whatever the library opens first gets number 0
         if f.get("out") in ("devlog", "default", "unknown") and f.get("sinkst", "ok") != "ok":
             s.add("envset", drv.hx(b"REC_DEVLOG"), drv.hx(ctx.nosock if f["sinkst"] == "absent" else ctx.full))
         if f.get("out") == "devtty" and f.get("state") == "ok":
@@ -387,6 +389,8 @@ def run_batches(build, items, workdir, workers=None, warm=True, snap=True, timeo
             if ev == "mark" and e["label"].startswith("item:"):
                 cur, pend = e["label"][5:], {}
                 obs[cur] = dict(ctx=ctxs[i], rc=rc)
+            elif ev == "mark" and e["label"].startswith("closed0:"):
+                pend["closed0"] = True
             elif ev == "mark" and e["label"].startswith("begin:"):
                 obs[cur].update(pend)
             elif ev == "env":
@@ -462,7 +466,9 @@ def evaluate(label, f, call, result, o):
         if ret:
             out["C01"].append(("replaced-returned", "exec returned although the image should have been replaced (ret %s)" % ret[0]["ret"]))
     # ---- C04
-    info = {"pid": at[0]["pid"] if at else 0, "sid": o.get("env", {}).get("sid", 0), "uid": 0, "cwd": os.path.realpath(ctx.w).encode()}
+    info = {"pid": at[0]["pid"] if at else 0, "sid": o.get("env", {}).get("sid", 0), "uid": 0, "cwd": os.path.realpath(ctx.w).encode(),
+            # %{tty} of the built-in format: "(none)" when descriptor 0 is not a terminal, the documented diagnostic when there is no descriptor 0
+            "tty": b"ERROR(ttyname_r->EBADF)" if o.get("closed0") else b"(none)"}
     if at:
         exp_recs = f["_expect"]
         probs = compare_sinks(at[0]["sinks"], exp_recs, f, path, argv, info)
